@@ -58,11 +58,12 @@ Field(op)   == IF op \in {"GatherUp", "ScatterUp"} THEN "up" ELSE IF op \in {"Ga
 Fields      == {Field(Colls[k]) : k \in DOMAIN Colls}
 
 (* weight vectors of the concatenated population used for the protocol check *)
-WeightChoices ==
+WeightChoicesAll ==
   { [i \in 1..NTot |-> i],                                   \* all different
     [i \in 1..NTot |-> IF i <= NPer THEN 0 ELSE 3],          \* rank 0 holds only dead walkers
     [i \in 1..NTot |-> IF i = NTot THEN 5 ELSE 0],           \* all mass on the last rank's last walker
     [i \in 1..NTot |-> IF i % 2 = 0 THEN -2 ELSE 1] }        \* mixed signs
+WeightChoices == {v \in WeightChoicesAll : Total(v) > 0}         \* W = 0 is outside the quantifier
 OneChoice == [i \in 1..NTot |-> i]
 
 VARIABLES
